@@ -452,11 +452,12 @@ COVER = {
 def traits_oracle(line):
     """the `harness traits` line against the property: returns None or a description of the failure"""
     kv = dict(t.split("=", 1) for t in line.split() if "=" in t)
-    want = {"virtual_dtor": ["1"], "ref_alias": ["1"], "refcount_alias": ["1"], "fresh_count": ["1"],
+    want = {"virtual_dtor": ["1"], "fresh_count": ["1"],
             "nullptr_ctor": ["null,2"], "nullptr_assign": ["null,2"], "const_access": ["6"], "after": ["2"], "end": ["1"],
             # copying / moving the object itself: deleted (HEAD), or a NEW object with count 1 and the source untouched
             "copy_ctor": ["deleted", "src=2,new=1"], "move_ctor": ["deleted", "src=2,new=1"],
-            "copy_assign": ["deleted", "src=2,dst=1"], "move_assign": ["deleted", "src=2,dst=1"]}
+            "copy_assign": ["deleted", "src=2,dst=1"], "move_assign": ["deleted", "src=2,dst=1"],
+            "ref_alias": ["1"], "refcount_alias": ["1"]}
     for k, ok in want.items():
         if kv.get(k) not in ok:
             return "%s=%s (required: %s)" % (k, kv.get(k), " or ".join(ok))
@@ -489,64 +490,113 @@ HAND = [   # the histories the design calls out
 ]
 
 
-def run(ctx):
-    NB, ND = 3, 2          # random histories: 5 handles
-    XB, XD = 2, 1          # exhaustive histories: 3 handles
+class St:
+    """state shared by the stages of one run"""
+    pass
+
+
+def stage(ctx, name, fn, *args):
+    """run one stage; an exception is a broken stage, never the end of the check"""
+    try:
+        return fn(*args)
+    except Exception as ex:
+        import traceback
+        tb = traceback.format_exc().strip().splitlines()
+        ctx.broken.append("stage %s raised %r (%s)" % (name, ex, tb[-3].strip() if len(tb) >= 3 else ""))
+        ctx.log("stage %s raised:\n%s" % (name, "\n".join(tb[-8:])))
+        return None
+
+
+def over_budget(ctx, limit=200.0):
+    """wall-clock guard: optional / boosted work is skipped once the run is this old (quick tier)"""
+    import time
+    return (not ctx.thorough()) and (time.time() - ctx.t0) > limit
+
+
+def st_facts(ctx, S):
     gen_v = os.path.join(ctx.coqdir, "gen", "Facts.v")
     facts_js = os.path.join(ctx.build, "facts.json")
-    # ---- (b) regenerate the fact table from the working tree
+    S.facts = {"table": {}, "rc": {}, "notes": [], "differs_textually": [], "info": {}}
     try:
         factgen.main(["--repo", ctx.repo, "--out", gen_v, "--json", facts_js, "--work", os.path.join(ctx.build, "ast")])
-        facts = json.load(open(facts_js))
+        S.facts = json.load(open(facts_js))
     except Exception as ex:
-        ctx.broken.append("fact extraction failed: %r" % (ex,))
-        facts = {"table": {}, "rc": {}, "notes": [repr(ex)], "differs_textually": []}
-        if not os.path.exists(gen_v):
-            os.makedirs(os.path.dirname(gen_v), exist_ok=True)
-            open(gen_v, "w").write(factgen.coq_text({m: ["MUnknown"] for m in factgen.METHS},
-                                                    {k: False for k in ("rc_atomic", "rc_init_one", "rc_inc_single", "rc_dec_single",
-                                                                        "rc_dec_own_result", "rc_dec_deletes", "rc_use_load")}))
-    ctx.cov["source_facts"] = {"table": facts.get("table"), "rc": facts.get("rc"), "info": facts.get("info"), "notes": facts.get("notes")}
-    res = ctx.coq_check(("Properties.v", "PropertiesFacts.v"))
-    facts_ok = bool(res.get("facts_match"))
-    rc_bad = [k for k, v in (facts.get("rc") or {}).items() if not v]
-    model = ctx.extract()
-    # the TSan build is cheap enough (about 6 s, in parallel with the ASan build) for both tiers
-    jobs = [dict(sources=["harness.cpp"], out="harness_asan", sanitize="asan"),
-            dict(sources=["harness.cpp"], out="harness_tsan", sanitize="tsan")]
-    exes = ctx.cxx_many(jobs)
-    exe = exes[0]
-    tsan = exes[1] if len(exes) > 1 else None
-    if not model or not exe:
-        return
-    ctx.trusted += ["fact extractor props/C08/factgen.py over `clang++ -std=c++11 -fsyntax-only -Xclang -ast-dump=json` of an "
-                    "instantiation of IntrusivePtr<Base> (classifies statements of the special members into MInc/MDec/MStore; "
-                    "anything unrecognised becomes MUnknown and fails the Coq check)",
-                    "correspondence harness harness/C08/harness.cpp + generators/oracle in props/C08/check.py (g++ -O1, ASan+UBSan; TSan for threads)"]
-    ctx.assumptions += ["interleaving (sequentially consistent) semantics: every refInc/refDec is one atomic step; the C++ memory model "
-                        "below seq_cst is not modelled (the counter's ++/-- are seq_cst RMWs in the source, which the fact table checks)",
-                        "threads own disjoint handle sets and only read the shared pre-filled array; handles shared between threads "
-                        "without external synchronisation are outside the property",
-                        "objects that themselves contain handles (a destructor releasing further references) are not modelled",
-                        "`operator<` is compared with std::less on the raw pointers the harness holds (the model has no addresses)"]
+        first = (str(ex).strip().splitlines() or [repr(ex)])
+        err1 = next((l for l in first if "error:" in l), first[0])
+        ctx.broken.append("fact extraction (clang AST of the fact TU) failed: %s" % err1[:300])
+        S.facts["notes"] = [repr(ex)[:500]]
+        # fail closed: the generated file becomes the all-unknown table, never a stale one
+        os.makedirs(os.path.dirname(gen_v), exist_ok=True)
+        txt = factgen.coq_text({m: ["MUnknown"] for m in factgen.METHS},
+                               {k: False for k in ("rc_atomic", "rc_init_one", "rc_inc_single", "rc_dec_single",
+                                                   "rc_dec_own_result", "rc_dec_deletes", "rc_use_load")})
+        if not os.path.exists(gen_v) or open(gen_v).read() != txt:
+            open(gen_v, "w").write(txt)
+    ctx.cov["source_facts"] = {"table": S.facts.get("table"), "rc": S.facts.get("rc"), "info": S.facts.get("info"), "notes": S.facts.get("notes")}
+    S.rc_bad = [k for k, v in (S.facts.get("rc") or {}).items() if not v]
 
-    # ---- (a) differential histories
+
+def st_coq(ctx, S):
+    res = ctx.coq_check(("Properties.v", "PropertiesFacts.v"))
+    S.facts_ok = bool(res.get("facts_match"))
+
+
+def st_model(ctx, S):
+    nb0 = len(ctx.broken)
+    S.model = ctx.extract()
+    S.model_has_gen = bool(S.model)
+    if not S.model:
+        # the extraction that includes the generated table failed: fall back to the hand model alone
+        # (model-vs-code comparison still runs; only the search with the extracted table is lost)
+        S.model = ctx.extract(extract_v="ExtractNoGen.v", driver="driver_nogen.ml", out="model_nogen")
+        if S.model:
+            ctx.broken[nb0:] = ["extraction of the model together with gen/Facts.v failed (hand model extracted alone)"]
+
+
+def st_harness(ctx, S):
+    """ASan+UBSan and TSan builds; if the normal build does not compile against the tree, a build that
+    uses only the public interface (operator-> instead of the ptr field); last resort: no sanitizer"""
+    nb0 = len(ctx.broken)
+    exes = ctx.cxx_many([dict(sources=["harness.cpp"], out="harness_asan", sanitize="asan"),
+                         dict(sources=["harness.cpp"], out="harness_tsan", sanitize="tsan")])
+    S.exe, S.tsan, S.exe_kind = exes[0], exes[1], "asan"
+    if not S.exe:
+        for kind, kw in (("asan, public interface only", dict(sanitize="asan", flags=["-DC08_PUBLIC_ONLY"])),
+                         ("no sanitizer", dict(sanitize=None)),
+                         ("no sanitizer, public interface only", dict(sanitize=None, flags=["-DC08_PUBLIC_ONLY"]))):
+            e = ctx.cxx(["harness.cpp"], "harness_fallback", **kw)
+            if e:
+                S.exe, S.exe_kind = e, kind
+                break
+        if not S.tsan and S.exe and "public" in S.exe_kind:
+            S.tsan = ctx.cxx(["harness.cpp"], "harness_tsan", sanitize="tsan", flags=["-DC08_PUBLIC_ONLY"])
+    if S.exe and S.exe_kind != "asan":
+        # keep ONE entry naming what failed, drop the repeated "harness build ..." entries of the retries
+        errs = [b for b in ctx.broken[nb0:] if b.startswith("harness build")]
+        ctx.broken[nb0:] = ["harness build against this tree failed in its normal form (%s); fallback build used: %s"
+                            % (", ".join(sorted(set(errs))), S.exe_kind)]
+    ctx.cov["harness_build"] = S.exe_kind if S.exe else "none"
+
+
+def st_cases(ctx, S):
+    NB, ND, XB, XD = S.NB, S.ND, S.XB, S.XD
     r = ctx.rng("cases")
-    hist = {}
-    rnd = []
+    S.hist = {}
+    S.rnd = []
     for _ in range(ctx.pick(4000, 40000)):
         c, h = gen_random(r, NB, ND, 40, 3)
-        rnd.append(c)
+        S.rnd.append(c)
         for k, v in h.items():
-            hist[k] = hist.get(k, 0) + v
+            S.hist[k] = S.hist.get(k, 0) + v
     corpus = os.path.join(ctx.verif, "corpus", "C08", "cases.txt")
-    corp = list(HAND)
+    S.corp = list(HAND)
     if os.path.exists(corpus):
-        corp += [l.strip() for l in open(corpus) if l.strip() and not l.startswith("#")]
+        S.corp += [l.strip() for l in open(corpus) if l.strip() and not l.startswith("#")]
     depth = ctx.pick(3, 4)
     exh = []
     for kinds in (["B", "D"], ["D", "D"]):
         exh += gen_exhaustive(XB, XD, kinds, depth)
+    nfull = len(exh)
     cdepth = ctx.pick(5, 8)
     ncanon, nstates = 0, 0
     for kinds in (["B", "D"], ["D", "D"]):
@@ -555,152 +605,147 @@ def run(ctx):
         ncanon += len(ch)
         nstates += ns
     ndeep = ctx.pick(6000, 60000)
-    if True:
-        # in addition a seeded sample of the histories with 5 operations after the creations
-        deep = []
-        rr = ctx.rng("deep")
-        alpha_cache = {}
-        for _ in range(ndeep):
-            kinds = rr.choice((["B", "D"], ["D", "D"]))
-            key = "".join(kinds)
-            alpha_cache.setdefault(key, alphabet(XB, XD, 2, kinds))
-            sim = Sim(XB, XD)
-            toks = ["c" + k for k in kinds]
-            for t in toks:
-                sim.step(t)
-            for _i in range(5):
-                legal = [t for t in alpha_cache[key] if sim.legal(t)]
-                t = rr.choice(legal)
-                toks.append(t)
-                sim.step(t)
-            deep.append(" ".join(toks))
-        exh += deep
-    groups = [("5-handles", NB, ND, corp + rnd), ("3-handles", XB, XD, exh)]
-    nmis = 0
-    noracle = 0
-    obs_steps = cmp_pairs = destructions = 0
-    reported = False
-    for gname, nb, nd, cases in groups:
-        mism, crashes, mlines = vlib.differential(ctx, cases, model, [(gname, exe, ["seq", str(nb), str(nd)])],
-                                                  model_args=[str(nb), str(nd)])
-        ctx.count(len(cases))
-        for c, ml in zip(cases, mlines):
-            # non-trivial: some object was destroyed by a handle operation or an assignment replaced a non-null pointer
-            if "x" in ml.split(" ; ")[-1].split("|")[1] and any(t[:2] in ("ca", "ma", "ra", "dt", "va", "vr") for t in c.split()):
-                ctx.nontriv(c)
-        nmis += len(mism)
-
-        def fails(toks, nb=nb, nd=nd):
-            line = " ".join(toks)
-            rc, out, err = ctx.run_exe(exe, ["seq", str(nb), str(nd)], stdin=line + "\n", timeout=60)
-            if rc != 0:
-                return rc != 3
-            return judge(nb, nd, line, out.strip("\n")) is not None
-
-        def report(case, why_first):
-            toks = vlib.shrink_list(case.split(), fails)
-            line = " ".join(toks)
-            rc, out, err = ctx.run_exe(exe, ["seq", str(nb), str(nd)], stdin=line + "\n", timeout=60)
-            why = ("sanitizer/crash rc=%d: %s" % (rc, (err.strip().splitlines() or [""])[0][:300] if rc not in (99,) else
-                                                   next((l for l in err.splitlines() if "ERROR: AddressSanitizer" in l), err[:300]))
-                   if rc != 0 else judge(nb, nd, line, out.strip("\n")))
-            rcm, mout, _ = ctx.run_exe(model, [str(nb), str(nd)], stdin=line + "\n")
-            ctx.violation("IntrusivePtr/RefCountedObject violates the reference-counting property on a concrete history (%s)" % gname,
-                          {"history": line, "handles": "0..%d IntrusivePtr<Base>, %d..%d IntrusivePtr<Derived>" % (nb - 1, nb, nb + nd - 1),
-                           "observed": out.strip(), "failure": why, "model": mout.strip(),
-                           "required": "useCount = creator refs + handles; destroyed exactly once at the last release; no sanitizer report",
-                           "original_history": case, "first_failure_before_shrinking": why_first,
-                           "stderr_tail": err[-1500:] if rc != 0 else ""})
-
-        for label, (rc, err, n) in crashes.items():
-            cand = [c for c in (cases[max(0, n - 1):n + 1]) if fails(c.split())]
-            if cand and not reported:
-                report(cand[0], "harness died with rc=%d" % rc)
-                reported = True
-            elif not reported:
-                ctx.violation("harness %s crashed (rc=%d)" % (label, rc), {"stderr_tail": err}, found_input=False)
-                reported = True
-        if reported:
-            continue
-        # the independent oracle is evaluated on EVERY observation line of the implementation,
-        # whether or not the model agrees with it
-        rc2, ilines, ierr = vlib.run_lines(ctx, exe, ["seq", str(nb), str(nd)], cases)
-        if rc2 == 0:
-            noracle += len(cases)
-            for il in ilines:
-                prev_dead = 0
-                for stp in il.split(" ; "):
-                    prt = stp.split("|")
-                    if len(prt) == 4:
-                        obs_steps += 1
-                        cmp_pairs += len(prt[3])
-                        nd_now = prt[1].count("x")
-                        if nd_now > prev_dead:
-                            destructions += nd_now - prev_dead
-                        prev_dead = nd_now
-            for c, il in zip(cases, ilines):
-                why = judge(nb, nd, c, il)
-                if why is not None:
-                    report(c, why)
-                    reported = True
-                    break
-        if reported:
-            continue
-        harmless = []
-        for (i, label, il, ml) in mism[:200]:
-            why = judge(nb, nd, cases[i], il)
-            if why is not None:
-                report(cases[i], why)
-                reported = True
-                break
-            harmless.append((cases[i], il, ml))
-        if not reported and harmless:
-            c, il, ml = harmless[0]
-            ctx.broken.append("correspondence C08 model vs implementation on history %r: impl=%r model=%r "
-                              "(the implementation's observations satisfy the property's equations)" % (c, il[:300], ml[:300]))
-    ctx.cov["op_histogram_random"] = hist
-    ctx.cov["case_mix"] = {"hand+corpus": len(corp), "random_len<=40_3obj_5handles": len(rnd),
-                           "exhaustive_depth": depth, "state_canonical_depth": cdepth, "state_canonical_histories": ncanon, "exhaustive_and_deep_3handles_2obj": len(exh)}
-    ctx.cov["exhaustive_subspace"] = ("all legal histories of %d operations (after creating 2 objects; object kinds B,D and D,D) over 3 handles "
-                             "(2 IntrusivePtr<Base>, 1 IntrusivePtr<Derived>): %d histories%s"
-                             % (depth, len(exh) - ndeep - ncanon,
-                                " + state-canonical reduction to depth %d: every legal operation from every one of the %d specification "
-                                "states reachable within %d operations, one witness history each (%d histories; covers every "
-                                "(state, operation) pair that any history of %d operations passes through)"
-                                " + %d seeded histories of 5 operations" % (cdepth, nstates, cdepth - 1, ncanon, cdepth, ndeep)))
-    ctx.cov["mismatches"] = nmis
-    ctx.cov["oracle_evaluated_histories"] = noracle
+    rr = ctx.rng("deep")
+    alpha_cache = {}
+    for _ in range(ndeep):
+        kinds = rr.choice((["B", "D"], ["D", "D"]))
+        key = "".join(kinds)
+        alpha_cache.setdefault(key, alphabet(XB, XD, 2, kinds))
+        sim = Sim(XB, XD)
+        toks = ["c" + k for k in kinds]
+        for t in toks:
+            sim.step(t)
+        for _i in range(5):
+            legal = [t for t in alpha_cache[key] if sim.legal(t)]
+            t = rr.choice(legal)
+            toks.append(t)
+            sim.step(t)
+        exh.append(" ".join(toks))
+    S.exh = exh
+    S.groups = [("5-handles", NB, ND, S.corp + S.rnd), ("3-handles", XB, XD, exh)]
+    ctx.cov["op_histogram_random"] = S.hist
+    ctx.cov["case_mix"] = {"hand+corpus": len(S.corp), "random_len<=40_3obj_5handles": len(S.rnd), "exhaustive_depth": depth,
+                           "state_canonical_depth": cdepth, "state_canonical_histories": ncanon, "exhaustive_and_deep_3handles_2obj": len(exh)}
+    ctx.cov["exhaustive_subspace"] = (
+        "all legal histories of %d operations (after creating 2 objects; object kinds B,D and D,D) over 3 handles "
+        "(2 IntrusivePtr<Base>, 1 IntrusivePtr<Derived>): %d histories + state-canonical reduction to depth %d: every legal operation "
+        "from every one of the %d specification states reachable within %d operations, one witness history each (%d histories; covers "
+        "every (state, operation) pair that any history of %d operations passes through) + %d seeded histories of 5 operations"
+        % (depth, nfull, cdepth, nstates, cdepth - 1, ncanon, cdepth, ndeep))
     ctx.rule = ("histories of create / default, copy, move, converting (from lvalue, rvalue and temporary of another handle type, to const T), raw constructor / destructor / copy, move, raw, converting assignment "
                 "(self-assignment and null included) / explicit refInc, refDec over 3 objects x 5 handles (random, length <= 40, 4% calls "
                 "outside the contract which both sides must reject) and over 2 objects x 3 handles (exhaustive to the stated depth); after every step "
                 "useCount of every live object, liveness from the destructor log, every handle's target and all ==/!=/< between handles "
-                "are compared with the extracted model; non-trivial = a handle operation destroyed an object")
-    for c in (corp[:2] + rnd[:2] + exh[:1]):
+                "are judged by the independent oracle and compared with the extracted model; non-trivial = a handle operation destroyed an object")
+    for c in (S.corp[:2] + S.rnd[:2] + exh[:1]):
         ctx.sample({"history": c})
 
-    # ---- (c) threads
+
+def st_histories(ctx, S):
+    """the harness on every history; the independent oracle on every observation line (needs no model);
+    model-vs-code comparison where the model exists"""
+    exe, model = S.exe, S.model
+    for gname, nb, nd, cases in S.groups:
+        args = ["seq", str(nb), str(nd)]
+        rc, ilines, ierr = vlib.run_lines(ctx, exe, args, cases)
+        ctx.count(len(cases))
+
+        def fails(toks, nb=nb, nd=nd, args=args):
+            line = " ".join(toks)
+            rc1, out, err = ctx.run_exe(exe, args, stdin=line + "\n", timeout=60)
+            if rc1 != 0:
+                return rc1 != 3
+            return judge(nb, nd, line, out.strip("\n")) is not None
+
+        def report(case, why_first, nb=nb, nd=nd, args=args, gname=gname):
+            toks = vlib.shrink_list(case.split(), fails)
+            line = " ".join(toks)
+            rc1, out, err = ctx.run_exe(exe, args, stdin=line + "\n", timeout=60)
+            if rc1 != 0:
+                why = "sanitizer/crash rc=%d: %s" % (rc1, next((l for l in err.splitlines() if "ERROR: AddressSanitizer" in l or "runtime error:" in l),
+                                                               (err.strip().splitlines() or [""])[0])[:300])
+            else:
+                why = judge(nb, nd, line, out.strip("\n"))
+            mout = ""
+            if model:
+                _, mout, _ = ctx.run_exe(model, [str(nb), str(nd)], stdin=line + "\n")
+            ctx.violation("IntrusivePtr/RefCountedObject violates the reference-counting property on a concrete history (%s)" % gname,
+                          {"history": line, "handles": "0..%d IntrusivePtr<Base>, %d..%d IntrusivePtr<Derived>" % (nb - 1, nb, nb + nd - 1),
+                           "observed": out.strip(), "failure": why, "model": mout.strip() or "(model not available in this run)",
+                           "harness_build": S.exe_kind,
+                           "required": "useCount = creator refs + handles; destroyed exactly once at the last release; no sanitizer report",
+                           "original_history": case, "first_failure_before_shrinking": why_first,
+                           "stderr_tail": err[-1500:] if rc1 != 0 else ""})
+            S.reported = True
+
+        if rc != 0:
+            n = len([l for l in ilines if l.strip()])
+            cand = [c for c in cases[max(0, n - 1):n + 1] if fails(c.split())]
+            if cand and not S.reported:
+                report(cand[0], "harness died with rc=%d" % rc)
+            elif not S.reported:
+                ctx.violation("harness %s crashed (rc=%d) and no single history reproduces it" % (gname, rc), {"stderr_tail": ierr[-3000:]}, found_input=False)
+                S.reported = True
+            continue
+        S.noracle += len(cases)
+        for il in ilines:
+            prev_dead = 0
+            for stp in il.split(" ; "):
+                prt = stp.split("|")
+                if len(prt) == 4:
+                    S.obs_steps += 1
+                    S.cmp_pairs += len(prt[3])
+                    nd_now = prt[1].count("x")
+                    if nd_now > prev_dead:
+                        S.destructions += nd_now - prev_dead
+                    prev_dead = nd_now
+            # non-trivial: some object was destroyed by a handle operation
+        for c, il in zip(cases, ilines):
+            last = il.split(" ; ")[-1].split("|")
+            if len(last) == 4 and "x" in last[1] and any(t[:2] in ("ca", "ma", "ra", "dt", "va", "vr") for t in c.split()):
+                ctx.nontriv(c)
+        if not S.reported:
+            for c, il in zip(cases, ilines):
+                why = judge(nb, nd, c, il)
+                if why is not None:
+                    report(c, why)
+                    break
+        if not model or S.reported:
+            continue
+        rcm, mlines, merr = vlib.run_lines(ctx, model, [str(nb), str(nd)], cases)
+        if rcm != 0 or len(mlines) != len(cases):
+            ctx.broken.append("model driver failed on group %s rc=%s lines=%d/%d %s" % (gname, rcm, len(mlines), len(cases), merr[-300:]))
+            continue
+        S.compared += len(cases)
+        mism = [(c, il, ml) for c, il, ml in zip(cases, ilines, mlines) if il != ml]
+        S.nmis += len(mism)
+        if mism:
+            c, il, ml = mism[0]
+            ctx.broken.append("correspondence C08 model vs implementation on history %r: impl=%r model=%r "
+                              "(the implementation's observations satisfy the independent oracle)" % (c, il[:300], ml[:300]))
+
+
+def st_threads(ctx, S):
     tcfg = ctx.pick([(2, 20000, 20), (4, 20000, 20), (8, 10000, 20)], [(2, 100000, 100), (3, 100000, 100), (4, 100000, 100), (8, 100000, 200)])
-    if rc_bad and not ctx.thorough():
+    if S.rc_bad and not ctx.thorough() and not over_budget(ctx, 120.0):
         tcfg = [(2, 20000, 300), (4, 20000, 300), (8, 20000, 300)]
-    tres = []
+    S.tres = []
     thread_fail = None
-    for (T, OPS, ROUNDS) in tcfg:
-        rc, out, err = ctx.run_exe(exe, ["threads", str(T), str(OPS), str(ctx.seed), str(ROUNDS)], timeout=600)
+    runs = [("asan" if S.exe_kind == "asan" else "fallback", S.exe, cfg, 600) for cfg in tcfg] if S.exe else []
+    if S.tsan:
+        runs += [("tsan", S.tsan, cfg, 900) for cfg in ctx.pick([(4, 3000, 5)], [(2, 20000, 20), (8, 20000, 20)])]
+    for (san, e, (T, OPS, ROUNDS), tmo) in runs:
+        if over_budget(ctx, 215.0):
+            S.tres.append({"skipped": "wall-clock budget", "threads": T, "build": san})
+            continue
+        rc, out, err = ctx.run_exe(e, ["threads", str(T), str(OPS), str(ctx.seed), str(ROUNDS)], timeout=tmo)
         ctx.count(1)
-        tres.append({"threads": T, "ops_per_thread": OPS, "rounds": ROUNDS, "rc": rc, "out": out.strip()[:300]})
+        S.tres.append({"build": san, "tsan": san == "tsan", "threads": T, "ops_per_thread": OPS, "rounds": ROUNDS, "rc": rc, "out": out.strip()[:300]})
         if rc != 0 or "threads ok" not in out:
-            thread_fail = ("asan", T, OPS, ROUNDS, rc, out, err)
+            thread_fail = (san, T, OPS, ROUNDS, rc, out, err)
             break
-    if tsan and not thread_fail:
-        for (T, OPS, ROUNDS) in ctx.pick([(4, 3000, 5)], [(2, 20000, 20), (8, 20000, 20)]):
-            rc, out, err = ctx.run_exe(tsan, ["threads", str(T), str(OPS), str(ctx.seed), str(ROUNDS)], timeout=900)
-            ctx.count(1)
-            tres.append({"tsan": True, "threads": T, "ops_per_thread": OPS, "rounds": ROUNDS, "rc": rc, "out": out.strip()[:300]})
-            if rc != 0 or "threads ok" not in out:
-                thread_fail = ("tsan", T, OPS, ROUNDS, rc, out, err)
-                break
-    ctx.cov["threads"] = tres
-    if thread_fail and not reported:
+    ctx.cov["threads"] = S.tres
+    if thread_fail and not S.reported:
         san, T, OPS, ROUNDS, rc, out, err = thread_fail
         key = next((l for l in err.splitlines() if "ERROR: AddressSanitizer" in l or "WARNING: ThreadSanitizer" in l or "runtime error:" in l), "")
         ctx.violation("threads: counts / single destruction violated, or sanitizer report, with %d threads (%s build)" % (T, san),
@@ -710,25 +755,32 @@ def run(ctx):
                                    % (T, OPS, ROUNDS),
                        "observed": out.strip()[:1000], "sanitizer": key, "rc": rc, "stderr_tail": err[-2500:],
                        "required": "useCount = creator + handles at the end; every object destroyed exactly once; no data race",
-                       "broken_source_facts": rc_bad})
-        reported = True
+                       "broken_source_facts": S.rc_bad})
+        S.reported = True
 
-    # ---- traits probe (copy semantics of RefCountedObject, virtual destructor, aliases, nullptr literal, const access)
-    rc_t, out_t, err_t = ctx.run_exe(exe, ["traits"], timeout=60)
+
+def st_traits(ctx, S):
+    rc_t, out_t, err_t = ctx.run_exe(S.exe, ["traits"], timeout=60)
     ctx.count(1)
+    S.traits_ran = rc_t == 0
     ctx.cov["traits"] = out_t.strip()
     twhy = traits_oracle(out_t.strip()) if rc_t == 0 else "harness traits died rc=%d: %s" % (rc_t, err_t[-400:])
-    if twhy and not reported:
+    if twhy and twhy.startswith(("ref_alias", "refcount_alias")):
+        # the aliases being other types than the classes is a changed declaration, not a counting error
+        ctx.broken.append("traits: %s (Ref / RefCount are no longer aliases of IntrusivePtr / RefCountedObject)" % twhy)
+        twhy = None
+    if twhy and not S.reported:
         ctx.violation("declarations outside the handle operations violate the property (copying a RefCountedObject, virtual destructor, "
                       "nullptr literal, aliases, const access)",
                       {"command": "build/C08/harness_asan traits", "observed": out_t.strip(), "failure": twhy,
                        "required": "copies of an object are new objects (count 1, source unchanged) or deleted; assignment changes no counter; "
                                    "virtual destructor; Ref/RefCount are the same types; nullptr constructs/assigns an empty handle and releases"})
-        reported = True
+        S.reported = True
 
-    # ---- inventory closure: AST declarations vs COVER, with execution counts of this run
+
+def st_inventory(ctx, S):
     counters = {}
-    for gname, nb, nd, cases in groups:
+    for gname, nb, nd, cases in (S.groups if S.noracle else []):
         for c in cases:
             for t in c.split():
                 f = t.split(":")
@@ -737,12 +789,12 @@ def run(ctx):
                     k2 = "null_literal_ctor" if f[0] == "rc" else "null_literal_assign"
                     counters[k2] = counters.get(k2, 0) + 1
     counters["create"] = counters.get("cB", 0) + counters.get("cD", 0)
-    counters["observations"] = obs_steps
-    counters["cmp_pairs"] = cmp_pairs
-    counters["destructions"] = destructions
-    counters["threads_ops"] = sum(t["threads"] * t["ops_per_thread"] for t in tres if t.get("rc") == 0)
-    counters["traits"] = 1 if rc_t == 0 else 0
-    inv = (facts.get("info") or {}).get("inventory") or []
+    counters["observations"] = S.obs_steps
+    counters["cmp_pairs"] = S.cmp_pairs
+    counters["destructions"] = S.destructions
+    counters["threads_ops"] = sum(t["threads"] * t["ops_per_thread"] for t in S.tres if t.get("rc") == 0)
+    counters["traits"] = 1 if S.traits_ran else 0
+    inv = (S.facts.get("info") or {}).get("inventory") or []
     invrep = {}
     if not inv:
         ctx.broken.append("inventory: no declarations enumerated from the AST")
@@ -758,36 +810,82 @@ def run(ctx):
             continue
         n = sum(counters.get(k, 0) for k in e["ops"])
         invrep[d] = {"executions": n, "by": {k: counters.get(k, 0) for k in e["ops"]}, "obligations": e["thm"]}
-        if n == 0:
+        if n == 0 and not S.reported:
             ctx.broken.append("inventory: `%s` is covered by %s but was executed 0 times in this run" % (d, e["ops"]))
     for d in COVER:
-        if d not in inv:
+        if inv and d not in inv:
             ctx.broken.append("inventory: COVER lists `%s`, which the headers no longer declare with that signature" % d)
     ctx.cov["inventory"] = invrep
     ctx.cov["inventory_size"] = len(inv)
 
-    # ---- search when the fact table no longer matches
-    if not facts_ok and not reported:
-        cands = []
-        for (nb, nd, cs) in ((NB, ND, corp), (XB, XD, exh)):
-            rcg, gout, gerr = ctx.run_exe(model, [str(nb), str(nd), "gen"], stdin="\n".join(cs) + "\n", timeout=600)
-            rcm, mout, _ = ctx.run_exe(model, [str(nb), str(nd)], stdin="\n".join(cs) + "\n", timeout=600)
-            cands += [(c, nb, nd) for c, gl, ml in zip(cs, gout.split("\n"), mout.split("\n")) if "ERR" in gl or gl != ml]
-        cands.sort(key=lambda c: len(c[0].split()))
-        ctx.cov["explorer_candidates"] = len(cands)
-        found = False
-        for (c, nb, nd) in cands[:50]:
-            rc, out, err = ctx.run_exe(exe, ["seq", str(nb), str(nd)], stdin=c + "\n", timeout=60)
-            why = ("sanitizer/crash rc=%d" % rc) if rc not in (0, 3) else (judge(nb, nd, c, out.strip("\n")) if rc == 0 else None)
-            if why:
-                ctx.violation("history predicted by the model run with the extracted table fails on the real code",
-                              {"history": c, "observed": out.strip(), "failure": why, "stderr_tail": err[-1500:],
-                               "differing_members": facts.get("differs_textually")})
-                found = True
-                break
-        if not found:
-            ctx.broken.append("source facts differ from the model's table (members %s; counter facts false: %s; notes %s) - "
-                              "%d candidate histories from the model run with the extracted table replayed on the real code without a failure"
-                              % (facts.get("differs_textually"), rc_bad, facts.get("notes"), len(cands)))
+
+def st_fact_search(ctx, S):
+    """the fact table no longer matches and nothing failed so far: run the model with the EXTRACTED table,
+    replay the histories on which it errs or differs on the real code"""
+    cands = []
+    for (nb, nd, cs) in ((S.NB, S.ND, S.corp), (S.XB, S.XD, S.exh)):
+        rcg, gout, gerr = ctx.run_exe(S.model, [str(nb), str(nd), "gen"], stdin="\n".join(cs) + "\n", timeout=240)
+        rcm, mout, _ = ctx.run_exe(S.model, [str(nb), str(nd)], stdin="\n".join(cs) + "\n", timeout=240)
+        cands += [(c, nb, nd) for c, gl, ml in zip(cs, gout.split("\n"), mout.split("\n")) if "ERR" in gl or gl != ml]
+    cands.sort(key=lambda c: len(c[0].split()))
+    ctx.cov["explorer_candidates"] = len(cands)
+    for (c, nb, nd) in cands[:50]:
+        if over_budget(ctx, 225.0):
+            break
+        rc, out, err = ctx.run_exe(S.exe, ["seq", str(nb), str(nd)], stdin=c + "\n", timeout=60)
+        why = ("sanitizer/crash rc=%d" % rc) if rc not in (0, 3) else (judge(nb, nd, c, out.strip("\n")) if rc == 0 else None)
+        if why:
+            ctx.violation("history predicted by the model run with the extracted table fails on the real code",
+                          {"history": c, "observed": out.strip(), "failure": why, "stderr_tail": err[-1500:],
+                           "differing_members": S.facts.get("differs_textually")})
+            S.reported = True
+            return
+    ctx.broken.append("source facts differ from the model's table (members %s; counter facts false: %s; notes %s) - "
+                      "%d candidate histories from the model run with the extracted table replayed on the real code without a failure"
+                      % (S.facts.get("differs_textually"), S.rc_bad, S.facts.get("notes"), len(cands)))
+
+
+def run(ctx):
+    """Stages are isolated: a failed stage is recorded in ctx.broken and everything that does not strictly
+    need its artefact still runs.  The compiled harness + the python oracle + sanitizers + threads run
+    whenever any harness build exists, with or without facts, Coq or the extracted model."""
+    S = St()
+    S.NB, S.ND, S.XB, S.XD = 3, 2, 2, 1
+    S.facts = {"table": {}, "rc": {}, "notes": [], "differs_textually": [], "info": {}}
+    S.rc_bad, S.facts_ok = [], False
+    S.model, S.model_has_gen, S.exe, S.tsan, S.exe_kind = None, False, None, None, "none"
+    S.groups, S.corp, S.exh, S.tres = [], [], [], []
+    S.reported = False
+    S.nmis = S.noracle = S.compared = S.obs_steps = S.cmp_pairs = S.destructions = 0
+    S.traits_ran = False
+    ctx.trusted += ["fact extractor props/C08/factgen.py over `clang++ -std=c++11 -fsyntax-only -Xclang -ast-dump=json` of an "
+                    "instantiation of IntrusivePtr<Base> (classifies statements of the special members into MInc/MDec/MStore; "
+                    "anything unrecognised becomes MUnknown and fails the Coq check)",
+                    "correspondence harness harness/C08/harness.cpp + generators/oracle in props/C08/check.py (g++ -O1, ASan+UBSan; TSan for threads)"]
+    ctx.assumptions += ["interleaving (sequentially consistent) semantics: every refInc/refDec is one atomic step; the C++ memory model "
+                        "below seq_cst is not modelled (the counter's ++/-- are seq_cst RMWs in the source, which the fact table checks)",
+                        "threads own disjoint handle sets and only read the shared pre-filled array; handles shared between threads "
+                        "without external synchronisation are outside the property",
+                        "objects that themselves contain handles (a destructor releasing further references) are not modelled",
+                        "`operator<` is compared with std::less on the raw pointers the harness holds (the model has no addresses)"]
+    stage(ctx, "facts", st_facts, ctx, S)
+    stage(ctx, "coq", st_coq, ctx, S)
+    stage(ctx, "model-extraction", st_model, ctx, S)
+    stage(ctx, "harness-build", st_harness, ctx, S)
+    stage(ctx, "case-generation", st_cases, ctx, S)
+    if S.exe:
+        stage(ctx, "histories", st_histories, ctx, S)
+    else:
+        ctx.broken.append("no harness build at all: the histories, the oracle, the threads run and the traits probe did not run")
+    if S.exe or S.tsan:
+        stage(ctx, "threads", st_threads, ctx, S)
+    if S.exe:
+        stage(ctx, "traits", st_traits, ctx, S)
+    stage(ctx, "inventory", st_inventory, ctx, S)
+    ctx.cov["mismatches"] = S.nmis
+    ctx.cov["oracle_evaluated_histories"] = S.noracle
+    ctx.cov["model_compared_histories"] = S.compared
+    if not S.facts_ok and not S.reported and S.model and S.model_has_gen and S.exe and not over_budget(ctx, 200.0):
+        stage(ctx, "fact-search", st_fact_search, ctx, S)
     if ctx.thorough():
-        ctx.coq_thorough_chk(["C08.Properties", "C08.PropertiesFacts"])
+        stage(ctx, "coqchk", ctx.coq_thorough_chk, ["C08.Properties", "C08.PropertiesFacts"])
